@@ -104,6 +104,9 @@ def run(ctx) -> None:
     ctx.rule("R2", "each substitution stays within a field and its target prints no leading zero")
     ctx.rule("R3", "every numeric part that can print a leading zero has a substitution")
     ctx.rule("R4", "[PYTAGNUM] recognises every short tag followed by a number")
+    ctx.rule("R6", "prerequisite: the parts of the derived pattern read back what is rendered for them (C02/R1-R3): a derived search pattern that stops short of its occurrence leaves the rest of the old text behind")
+    from sa.report import run_prerequisite
+    run_prerequisite(ctx, "C02", ("R1", "R2", "R3"), "R6")
     ctx.rule("R5", "derivation constants: 'v' stripped, separators stripped, PYTAGNUM appended; to_pep440 = str(parse_version(v))")
 
     t2p = prog.const("version", "PEP440_TAG_BY_TAG")
@@ -196,6 +199,29 @@ def run(ctx) -> None:
     # ---------------------------------------------------------------- R5
     cv = prog.function("v2patterns._convert_to_pep440")
     ctx.visit(cv.fq)
+    # a part whose name is contained in its own substitution (TAG in PYTAG) must not be substituted where the substitution
+    # is already present: every replace site that can run for such a part is guarded by `substitution in <pattern>` -> skip
+    subs_tab = prog.const("v2patterns", "PEP440_PART_SUBSTITUTIONS")
+    self_containing = sorted(p_ for p_, s_ in subs_tab.items() if p_ in s_)
+    from sa.pathcond import PathCond as _PC
+    from sa.boolfn import BF as _BF
+    cvg = ctx.cfgs.get(cv.fq)
+    cvpc = _PC(cvg)
+    rsites = [n for n in cvg.nodes if n.kind == "stmt" and isinstance(n.ast, ast.Assign) and isinstance(n.ast.value, ast.Call) and isinstance(n.ast.value.func, ast.Attribute)
+              and n.ast.value.func.attr == "replace" and len(n.ast.value.args) == 2 and all(isinstance(a_, ast.Name) for a_ in n.ast.value.args) and n.id in cvg.reachable()]
+    ctx.floor("R5", "table-driven replace sites in _convert_to_pep440", len(rsites), 1)
+    if self_containing:
+        for n in rsites:
+            part_v, subst_v = (a_.id for a_ in n.ast.value.args)
+            r = cvpc.reach(n.id).drop_unused()
+            guard = [a_ for a_ in r.atoms if a_.replace(" ", "") == f"{subst_v}in{unparse(n.ast.value.func.value)}".replace(" ", "")]
+            numeric_only = [a_ for a_ in r.atoms if shapes.inline_text(cv, ast.parse(a_, mode="eval").body, prog).replace('"', "'").startswith(f"{part_v} not in (")
+                            and all(t in shapes.inline_text(cv, ast.parse(a_, mode="eval").body, prog) for t in self_containing) and r.implies(_BF.var(a_))]
+            guarded = bool(guard) and r.implies(~_BF.var(guard[0]))
+            ctx.check("R5", guarded or bool(numeric_only), f"_convert_to_pep440 L{n.lineno}: `{unparse(n.ast.value)}` never runs for {self_containing} when the substitution is already present",
+                      "v2patterns._convert_to_pep440: a part contained in its own substitution is substituted again",
+                      f"`{unparse(n.ast)}` can run for {self_containing} although the pattern already contains the substitution: PYTAGNUM becomes PYPYTAGNUM and "
+                      f"`{{pep440_version}}` is written as e.g. 1.2.4PYrc0", loc=cv.loc(n.ast), witness={"version_pattern": "MAJOR.MINOR.PATCH[PYTAGNUM]"})
     src_if = [n for n in walk_no_nested(cv.node) if isinstance(n, ast.If) and "startswith('v')" in unparse(n.test)]
     ok = len(src_if) == 1 and any(isinstance(s, ast.Assign) and unparse(s.value).endswith("[1:]") for s in src_if[0].body)
     ctx.check("R5", ok, "_convert_to_pep440 strips a leading 'v'", "v2patterns._convert_to_pep440: 'v' prefix not stripped", "", loc=cv.loc())
